@@ -10,6 +10,36 @@ COMMON_ASSUMPTIONS = [
 ]
 
 
+M_GRAD = {"grad-value", "grad-dims", "grad-presence", "backward-panic", "control-flow", "comparison"}
+M_EVAL = {"eval-set", "eval-once", "eval-adjoint", "eval-order", "eval-budget-exhausted", "backward-panic"}
+M_TRACK = {"tracked-flag", "previous-flag", "grad-presence", "grad-tracked", "into_vec-should-succeed", "grad-value"}
+M_OWN = {"into_vec-should-succeed", "grad-tracked"}
+M_IMM = {"immutable", "live-set"}
+M_UPD = {"update-values", "update-dims", "tracked-flag", "grad-presence", "unexpected-panic"}
+ENGINE_NOTE = ("bounded: all graphs / flag assignments / pass histories within the stated constants are explored by TLC, seeded random and TLC-simulated programs beyond; "
+               "verdicts use API observables only (values, gradients, flags, Vec::from, user derivative closures); trusted: TLC/SANY, Json module, executor step-to-API mapping")
+
+
+def mc(cfg, module="MC_Engine", **kw):
+    d = {"module": module, "cfg": cfg}
+    d.update(kw)
+    return d
+
+
+def tlc_family(name, cfg, workdir_tag, simulate=None, limit=None, seed=1, **kw):
+    """programs enumerated / simulated by TLC from GenEngine.tla"""
+    import os, random
+    import pipeline as P
+    progs, st = FE.tlc_programs(cfg, os.path.join(P.OUT, "gen_" + workdir_tag), simulate=simulate, seed=seed,
+                                limit=limit, rnd=random.Random(seed))
+    d = {"name": name, "cases": progs, "gen_stats": st,
+         "what": "programs %s by TLC from spec/GenEngine.tla with %s.cfg (%d behaviours%s)" % (
+             "simulated" if simulate else "enumerated", cfg, st["programs"],
+             ", sampled down to %d" % limit if limit and st["programs"] > limit else "")}
+    d.update(kw)
+    return d
+
+
 def finding_key(pid, mismatch, steps):
     """identify a failing class by property, failing step, reason and a coarse input predicate"""
     st = [s for s in steps if s["i"] == mismatch["i"]]
@@ -89,5 +119,128 @@ PROPERTIES = {
              "require": {"judged": 1500, "passes": 1500}},
         ],
         "rule": "a case = one operation with one parameterisation, operand shapes, tracked subset and seed; distinct by program hash",
+    },
+    "C01": {
+        "level_text": "AutodiffAbs!RefAdj is a counter-free definition of the adjoint of every node (sum over tracked uses by reached consumers of the definition-derived VJPs); TLC checks that the implementation-shaped pass AutodiffImpl (consumer counts, pending sums, depth-first recursion) implements it on every graph of <=2 (thorough <=3) operations with every tracked/untracked operand choice and root, and the trace specification requires every gradient the real crate deposits - on TLC-enumerated graphs, TLC-simulated histories and random tensor programs with data-dependent control flow - to equal it bit for bit",
+        "level_note": ENGINE_NOTE,
+        "technique": "TLC model checking of AutodiffImpl against AutodiffAbs + TLC trace validation of spec-generated and random programs run on the real crate",
+        "mc": lambda tier: [mc("MC_Engine_p1" if tier == "quick" else "MC_Engine_t3"),
+                            mc("MC_Rules_quick" if tier == "quick" else "MC_Rules_thorough", module="MC_Rules")],
+        "families": lambda tier, seed: [
+            tlc_family("tlc_graphs", "GenEngine_pass", "C01", limit=2500 if tier == "quick" else 30000, seed=seed,
+                       mask=M_GRAD, exhaustive=True, require={"passes": 1000}),
+            {"name": "random_programs", "cases": FE.random_cases(seed, 1200 if tier == "quick" else 12000), "mask": M_GRAD,
+             "what": "seeded random programs over add/sub/mul/div/axpy/neg/scale/powf/sum/reshape/matmul/relu/user ops with broadcasting, clones, drops, flag changes, several passes and data-dependent branches (cmp / when)",
+             "require": {"passes": 1000}},
+        ],
+        "rule": "a case = one program (graph construction + passes); distinct by program hash; non-trivial = contains at least one backward pass whose gradients are compared",
+    },
+    "C03": {
+        "level_text": "In the specification every contribution is the VJP on the operand's own dimensions (ReduceTo = sum over broadcast positions), GradShape/GradDims are invariants of the model-checked specs, and the trace specification requires dims and values of every stored gradient of broadcast operands used 1..3 times over 1..2 passes (and the parameters after a following update) to equal the specification's",
+        "level_note": ENGINE_NOTE,
+        "technique": "TLC model checking (GradShape on AutodiffImpl with broadcast leaves) + TLC trace validation of enumerated broadcast programs on the real crate",
+        "mc": lambda tier: [mc("MC_Engine_bc" if tier == "quick" else "MC_Engine_t3bc")],
+        "families": lambda tier, seed: [
+            {"name": "broadcast_uses", "cases": FE.c03_cases(tier, seed), "mask": M_GRAD | M_UPD,
+             "what": "operand a broadcast to b's shape (all strictly-broadcast pairs rank<=3 sizes<=3, sampled in quick) used 1..3 times through add/sub/mul/axpy, 1..2 passes with prime seeds, then a two-parameter update; matmul additive terms over rows and batches",
+             "require": {"passes": 400, "updates": 200}},
+        ],
+        "rule": "a case = one broadcast pair x number of uses x number of passes; distinct by program hash",
+    },
+    "C09": {
+        "level_text": "The specification fixes tracking per handle (Apply: result tracked and operands recorded iff some operand handle is tracked; Backward reaches only through tracked-at-use edges; gradient arrays are plain); TLC checks KidsIffTracked / PassRefinesAbs over all flag assignments incl. the start_tracking-without-keep handles, and the trace specification compares, after every step of spec-generated and random programs on the real crate, every live handle's tracked flag (API round trip), gradient presence, gradient tracking, previous-flag return values and Vec::from of operands of untracked results",
+        "level_note": ENGINE_NOTE + "; gradient presence on interior nodes reached through a handle without keep is left to the implementation (may-store), as the property allows",
+        "technique": "TLC model checking (flag variants) + TLC trace validation of flag-heavy programs on the real crate",
+        "mc": lambda tier: [mc("MC_Engine_flags" if tier == "quick" else "MC_Engine_t2p"), mc("GenEngine_mc", module="GenEngine")],
+        "families": lambda tier, seed: [
+            {"name": "tracking_rules", "cases": FE.c09_cases(tier, seed), "mask": M_TRACK,
+             "what": "every operation x every tracked subset of its operands (result flag, no reference kept when untracked, gradients only where tracked, flags restored after passes, gradients plain), untracked intermediates, random flag-heavy programs",
+             "require": {"passes": 300, "owned": 30}},
+            tlc_family("tlc_flag_histories", "GenEngine_hist", "C09", simulate=(150 if tier == "quick" else 1500, 20), seed=seed,
+                       mask=M_TRACK, require={"passes": 500}),
+        ],
+        "rule": "a case = one program; distinct by program hash; non-trivial = at least one flag observation after an operation or pass",
+    },
+    "C10": {
+        "level_text": "GradExact over histories: the abstract pass reads only the graph (never counters or pending sums), gradients accumulate into the slot; TLC checks NoResidue / PassRefinesAbs for two consecutive passes from ANY handles with clears in between on every graph within the bound, and the trace specification validates spec-generated histories (flag changes, clears, drops, passes from interior nodes and from results containing them) and random histories on the real crate, comparing every gradient after every pass",
+        "level_note": ENGINE_NOTE,
+        "technique": "TLC model checking of 2-pass histories + TLC trace validation of TLC-simulated and random histories on the real crate",
+        "mc": lambda tier: [mc("MC_Engine_p2" if tier == "thorough" else "MC_Engine_p2q"),
+                            mc("MC_Engine_noguard", expect_violation="NoResidue")],
+        "families": lambda tier, seed: [
+            tlc_family("tlc_histories", "GenEngine_hist", "C10", simulate=(250 if tier == "quick" else 2500, 20), seed=seed + 1,
+                       mask=M_GRAD, require={"passes": 1500}),
+            tlc_family("tlc_small_histories", "GenEngine_hist2q" if tier == "quick" else "GenEngine_hist2", "C10b", limit=2500 if tier == "quick" else 40000, seed=seed,
+                       mask=M_GRAD, exhaustive=True, require={"passes": 1000}),
+            {"name": "random_histories", "cases": FE.random_cases(seed + 3, 600 if tier == "quick" else 6000, nsteps=(8, 22), p_pass=0.3),
+             "mask": M_GRAD, "what": "random programs with many passes, clears and flag changes over a shared leaf pool",
+             "require": {"passes": 1500}},
+        ],
+        "rule": "a case = one history; distinct by program hash; non-trivial = at least two passes or a pass after a flag change / clear",
+    },
+    "C11": {
+        "level_text": "AutodiffAbs: every reached node with operands is evaluated exactly once with the complete adjoint RefAdj and after all its in-pass consumers; TLC checks EvalOnce / EvalComplete / EvalAll on AutodiffImpl for all graphs within the bound, and the trace specification checks the log of derivative-closure invocations (node, received adjoint) of graphs built only from user operations on the real crate: same set, no repetition, each adjoint complete, consumers first; self-product chains to depth 60 (2^60 paths) under an invocation budget",
+        "level_note": ENGINE_NOTE + "; built-in operations' closures are not observable without hooks and are covered through their results (C01)",
+        "technique": "TLC model checking (EvalOnce/EvalComplete/EvalAll) + TLC trace validation of logged derivative invocations on the real crate",
+        "mc": lambda tier: [mc("MC_Engine_custom")],
+        "families": lambda tier, seed: [
+            {"name": "user_op_graphs", "cases": FE.c11_cases(tier, seed), "mask": M_EVAL,
+             "what": "self-product and self-sum chains of user operations up to depth 60, random DAGs of cadd/cmul/csq/cfma with fan-out, diamonds, mixed tracking, second passes",
+             "require": {"evals": 800}},
+            tlc_family("tlc_user_graphs", "GenEngine_custom", "C11", limit=1500 if tier == "quick" else 20000, seed=seed,
+                       mask=M_EVAL, exhaustive=True, require={"evals": 300}),
+        ],
+        "rule": "a case = one graph of user operations with 1-2 passes; distinct by program hash",
+    },
+    "C12": {
+        "level_text": "In the specification observables are functions of nodes, never of handles: HandleStutter (clone / drop / flag steps leave nodes and gradient slots unchanged) is checked by TLC on the exhaustively explored GenEngine behaviours; every random program is run on the real crate together with its variants (every operand replaced by a fresh clone that is dropped afterwards, passes started from a clone of the result, handles dropped right after their last use) and all variants are validated against the same specification bit for bit; gradients deposited or cleared through one clone are observed through the others",
+        "level_note": ENGINE_NOTE,
+        "technique": "TLC model checking (HandleStutter) + TLC trace validation of program variants on the real crate",
+        "mc": lambda tier: [mc("GenEngine_mc", module="GenEngine")],
+        "families": lambda tier, seed: [
+            {"name": "variants", "cases": FE.c12_cases(tier, seed), "mask": M_GRAD | {"values", "dims", "unexpected-panic", "immutable"},
+             "what": "random programs, each with two handle-transparent variants, plus gradient visibility through clones",
+             "require": {"passes": 500}},
+        ],
+        "rule": "a case = one program or one of its variants; distinct by program hash",
+    },
+    "C17": {
+        "level_text": "TLC checks SeedLinear (RefAdj(2 s1 - 3 s2) = 2 RefAdj(s1) - 3 RefAdj(s2) for every node and live root) on every graph of the bound with broadcast leaves, the default seed is Ones by definition (SeedOf); on the real crate each program is run with s1, s2 and alpha*s1+beta*s2 (dyadic coefficients) and with no seed vs explicit ones on results up to 81 elements, every gradient compared bit for bit with the specification",
+        "level_note": ENGINE_NOTE,
+        "technique": "TLC model checking (SeedLinear) + TLC trace validation of seed triples on the real crate",
+        "mc": lambda tier: [mc("GenEngine_seedmc" if tier == "quick" else "GenEngine_seedmc3", module="GenEngine")],
+        "families": lambda tier, seed: [
+            {"name": "seeds", "cases": FE.c17_cases(tier, seed), "mask": M_GRAD,
+             "what": "omitted seed vs explicit ones on results of 1..81 elements; random programs each run with s1, s2, alpha*s1+beta*s2",
+             "require": {"passes": 400}},
+        ],
+        "rule": "a case = one (program, seed) instance; distinct by program hash",
+    },
+    "C18": {
+        "level_text": "Ownership in the specification: a buffer is referenced by live handles / views on it and by the operand lists of alive nodes only (gradient slots hold independent arrays, finished passes hold nothing - NoResidue is model-checked); the generator emits Vec::from(h) exactly in the states where the specification says h MUST be the sole owner (MustOwn), for every drop order within the bound, with and without stored gradients, and the trace specification requires the real crate to succeed there",
+        "level_note": ENGINE_NOTE + "; memory is observed through Vec::from sole ownership (Rc::try_unwrap), not through an allocator",
+        "technique": "TLC model checking (NoResidue) + spec-enabled Vec::from steps validated by the TLC trace specification on the real crate",
+        "mc": lambda tier: [mc("MC_Engine_p1" if tier == "quick" else "MC_Engine_p2")],
+        "families": lambda tier, seed: [
+            tlc_family("tlc_ownership", "GenEngine_ownq" if tier == "quick" else "GenEngine_own", "C18", limit=3000 if tier == "quick" else 40000, seed=seed,
+                       mask=M_OWN, exhaustive=True, require={"owned": 500}),
+            tlc_family("tlc_ownership_sim", "GenEngine_hist", "C18b", simulate=(150 if tier == "quick" else 1500, 20), seed=seed + 2,
+                       mask=M_OWN, require={"owned": 1000}),
+        ],
+        "rule": "a case = one history ending in ownership probes; distinct by program hash; non-trivial = at least one Vec::from where the specification demands sole ownership",
+    },
+    "C08": {
+        "level_text": "Immutable is an action property of every model-checked specification (node values and operand lists never change; an update allocates a fresh node and re-points the handle); on the real crate every event of every family carries a digest of (dims, value bits) of EVERY live handle - clones, reshaped views, fetched gradients, old parameters, graph operands - and the trace specification requires it to equal the digest recorded when the handle was created, across passes, accumulations, updates and drops",
+        "level_note": ENGINE_NOTE + "; the BLAS build (unsafe code in blas.rs) cannot be built offline and is out of scope",
+        "technique": "TLC model checking (Immutable) + per-event digests of all live handles validated by the TLC trace specification",
+        "mc": lambda tier: [mc("MC_Engine_p1"), mc("GenEngine_mc", module="GenEngine")],
+        "families": lambda tier, seed: [
+            {"name": "long_histories", "cases": FE.random_cases(seed + 11, 700 if tier == "quick" else 6000, nsteps=(10, 26), p_pass=0.25),
+             "mask": M_IMM, "what": "long random histories keeping clones, views and fetched gradients alive across passes, clears and drops"},
+            {"name": "broadcast_updates", "cases": FE.c03_cases("quick", seed + 1), "mask": M_IMM,
+             "what": "passes followed by optimizer updates while older handles of the parameters stay alive"},
+            tlc_family("tlc_histories", "GenEngine_hist", "C08", simulate=(150 if tier == "quick" else 1500, 20), seed=seed + 4, mask=M_IMM),
+        ],
+        "rule": "a case = one history; every live handle's digest is compared at every step; distinct by program hash",
     },
 }
